@@ -58,6 +58,27 @@ def run(ctx):
             elif m == 3:
                 s['cfg']['fnum'] = rng.randint(1, 4)       # small subsets -> split votes
                 s['cfg']['B'] = rng.randint(4, 9)
+            elif m == 4:
+                # sparse cells (one expressed gene): iterations that miss it see a constant vector,
+                # correlation 0 with every leaf -> zero-correlation winners / runners-up
+                s = maptrace.gen_scenario(rng, tree=maptrace.random_tree(rng, rng.randint(1, 2), 5, 3),
+                                          ncell=rng.randint(3, 8), G=6)
+                if len(s['tree']['nodes'][0]) == 1:
+                    s['tree'] = maptrace.random_tree(rng, 1, 5, 3)
+                    s['means'] = {str(l): [rng.randint(0, 4) for _ in range(6)]
+                                  for l in s['tree']['nodes'][-1]}
+                s['qgenes'] = rng.sample(range(1, 7), 6)
+                s['markers'] = {'0/0': [1, 2, 3, 4, 5, 6]}
+                s['Q'] = [[0] * 6 for _ in s['cells']]
+                for row in s['Q']:
+                    row[rng.randrange(6)] = rng.randint(1, 4)
+                s['cfg'].update(fnum=rng.randint(4, 6), B=rng.randint(5, 9), K=rng.randint(1, 4),
+                                enc=rng.choice(['dense', 'csr']), drop=None, flatten=False)
+            elif m == 5 and i % 4 == 1:
+                # iteration counts beyond one byte
+                s['cfg']['B'] = rng.choice([256, 300, 517])
+                s['Q'] = s['Q'][:2]
+                s['cells'] = s['cells'][:2]
             scns.append(s)
         results = campaign(ctx, scns, 'MapRun_Trace_c03')
     nviol, blocked = report_for(ctx, results, PID)
